@@ -28,6 +28,7 @@ MIN = {'quick': {'distinct': 1500,
                             'negra: neither': 100,
                             'rule: listed child not leftmost': 1000,
                             'invalid configuration rejected': 20,
+                            'same production under both presets': 500,
                             'negra: tree already carries head marks': 300,
                             'negra after rule-based marking': 100,
                             'rules: tree already carries head marks': 500}},
@@ -276,6 +277,33 @@ def make_rule_case(rng, tabs, preset):
     return {'sid': 1, 'root': root}
 
 
+def make_dual_case(rng, tabs):
+    """One constituent whose head differs between the presets: child a is
+    listed only in the negra rule of the parent category, child b only in the
+    ptb rule."""
+    both = sorted(p for p in tabs['negra'] if p in tabs['ptb']
+                  and tabs['negra'][p] - tabs['ptb'][p]
+                  and tabs['ptb'][p] - tabs['negra'][p])
+    p = rng.choice(both)
+    a = rng.choice(sorted(tabs['negra'][p] - tabs['ptb'][p]))
+    b = rng.choice(sorted(tabs['ptb'][p] - tabs['negra'][p]))
+    allcats = sorted(set(w for t in tabs.values() for s in t.values()
+                         for w in s))
+    neutral = [c for c in allcats if c not in tabs['negra'][p]
+               and c not in tabs['ptb'][p]] + ['xx']
+    cats = [a, b] + [rng.choice(neutral) for _ in range(rng.randint(0, 3))]
+    rng.shuffle(cats)
+    kids = [{'n': i + 1, 'w': 'w%d' % i, 'p': c.upper(), 'e': '--', 'm': '--',
+             'lm': '--'} for i, c in enumerate(cats)]
+    out = {}
+    for preset, listed in (('negra', a), ('ptb', b)):
+        node = {'l': p.upper(), 'e': '--', 'c': [dict(k) for k in kids],
+                '_head': cats.index(listed)}
+        out[preset] = {'sid': 1, 'root': {'l': 'ROOTX', 'e': '--',
+                                          'c': [node]}}
+    return out
+
+
 def strip_private(node):
     out = {k: v for k, v in node.items() if not k.startswith('_')}
     if 'c' in node:
@@ -352,6 +380,13 @@ def shard(ctx):
             ctx.sample({'preset': preset,
                         'tree': model.show(model.from_spec(
                             strip_private(spec['root'])), '')}, 4)
+    for i in ctx.indices(ctx.pick(800, 40000)):
+        rng = ctx.rng('dual', i)
+        dual = make_dual_case(rng, tabs)
+        order = ['negra', 'ptb'] if rng.random() < 0.5 else ['ptb', 'negra']
+        for preset in order + order[:1]:
+            run_rules(ctx, dual[preset], preset, rng)
+        ctx.stratum('same production under both presets')
     bad = [{'mark_heads_preset': 'tiger'}, {'mark_heads_preset': 'PTB'},
            {}, {'mark_heads_preset': 'negra', 'mark_heads_rulefile': 'x'},
            {'mark_heads_preset': ''}, {'mark_heads_preset': 1}]
